@@ -12,7 +12,15 @@ import re
 import shutil
 import vcommon as vc
 
-RULE = ("cases drawn from one PRNG (VERIF_SEED), one fresh file each: (sds) 1-3 datasets of rank 1-4, extents 1-5, "
+RULE = ("cases drawn from one PRNG (VERIF_SEED), one fresh file each; files hold several objects (1-4) in varied creation "
+        "order, optionally after 1-2 objects of the other family (shifted refs), and optionally get a LATER session that "
+        "only changes metadata of some objects (SDsetattr / GRsetattr) before every older interface reads them; "
+        "(sds) datasets also carry dimension scales on arbitrary subsets of their dimensions (DFSDsetdimscale with NULL "
+        "for the others / SDsetdimscale), label/unit/format strings and a range, compared through DFSDgetdimscale/"
+        "getdatastrs/getrange and SDgetdimscale/getdatastrs/getrange; SD files hold several record variables with "
+        "different record counts; GR files mix images without a raster-image group (other types, 2/4 components) with "
+        "8/24-bit ones; counts (DFSDndatasets, DFR8nimages, DF24nimages, DFPnpals, SD/GR file info) are compared; "
+        "(sds) 1-4 datasets of rank 1-4, extents 1-5, "
         "every 8/16/32-bit integer, char and float32/64 type in standard, little-endian and native flavour, optional "
         "unlimited first dimension, written by DFSDadddata | SDcreate+SDwritedata | nccreate/ncdimdef/ncvardef/ncvarput "
         "and read by DFSDgetdims/getNT/getdata, SDgetinfo/SDreaddata, ncvarinq/ncvarget, the Vgroup/Vdata records "
@@ -37,8 +45,12 @@ TRUSTED = ["Coq 8.16.1 kernel",
 ASSUMPTIONS = ["host is little-endian; JPEG and IMCOMP images are outside the equality claim (dimensions only)",
                "the older raster calls address an image only through a raster-image group; GR writes one for "
                "8-bit unsigned images of 1 or 3 components",
-               "record variables of one file share one record count (the netCDF-style calls know a single record "
-               "dimension per file and present every record variable with the largest count)",
+               "record variables with different record counts in one file: the netCDF-style calls and the record-dimension "
+               "Vdata know a single record count per file (the largest), so these two views are compared only when the "
+               "counts agree; DFSD, SD and the NDG path are always compared",
+               "metadata direction: the multi-file SD calls keep scales/strings/range in dimension variables and "
+               "attributes which the older NDG description cannot hold; DFSD shows them for DFSD-written datasets only, "
+               "and shows every SD dimension scale as a one-dimensional dataset of its own (it is an SD variable)",
                "bare Raster-8 files (RI8/ID8/IP8 without RIG): a palette stays in effect for the following images "
                "(the 8-bit calls apply it, GR shows it only with the image it was stored with), so generated files "
                "give every image after the first palette its own",
@@ -76,40 +88,56 @@ def hexs(b):
     return "".join("%02x" % x for x in b) if b else "-"
 
 
+def rstr(r):
+    return [r.randrange(33, 127) for _ in range(r.choice([1, 2, 5, 8]))]
+
+
 def gen_sds(r):
-    w = r.choice(["dfsd", "sd", "nc"])
-    n = r.choice([1, 1, 2, 3])
+    w = r.choice(["dfsd", "sd", "sd", "nc"])
+    n = r.choice([1, 2, 2, 3, 4])
     ds = []
     unl_used = False
-    nrec = r.choice([1, 2, 3, 5])     # the netCDF data model has one record count per file
+    nrec = r.choice([1, 2, 3, 5])     # the netCDF-style calls know one record count per file
     for _ in range(n):
-        rank = r.choice([1, 1, 2, 2, 3, 4])
+        rank = r.choice([1, 1, 2, 2, 3, 3, 4])
         dims = [r.choice([1, 2, 3, 4, 5]) for _ in range(rank)]
         if w == "nc":
             nt = r.choice(NC_OK)
         else:
             nt = r.choice(list(BASES)) | r.choice([0, 0, 0, 0x4000, 0x1000])
         unl = False
-        if w == "sd" and r.random() < 0.3:
-            unl = True
+        if w == "sd" and r.random() < 0.45:
+            unl = True          # several record variables, each with its own record count
         if w == "nc" and not unl_used and r.random() < 0.3:
             unl = unl_used = True
-        if unl:
             dims[0] = nrec
         ne = 1
         for d in dims:
             ne *= d
-        ds.append({"dims": dims, "unl": unl, "nt": nt, "data": rbytes(r, ne * BASES[nt & 255])})
-    return {"kind": "sds", "w": w, "objs": ds}
+        wd = BASES[nt & 255]
+        d = {"dims": dims, "unl": unl, "nt": nt, "data": rbytes(r, ne * wd), "scales": [None] * rank, "strs": None, "range": None}
+        if w in ("dfsd", "sd") and r.random() < 0.6:
+            # dimension scales on an arbitrary subset of the dimensions (never on a record dimension)
+            for i in range(rank):
+                if r.random() < 0.5 and not (unl and i == 0):
+                    d["scales"][i] = rbytes(r, dims[i] * wd)
+        if w in ("dfsd", "sd") and r.random() < 0.4:
+            d["strs"] = (rstr(r), rstr(r) if r.random() < 0.7 else [], rstr(r) if r.random() < 0.7 else [])
+        if w in ("dfsd", "sd") and r.random() < 0.3:
+            d["range"] = (rbytes(r, wd), rbytes(r, wd))
+        ds.append(d)
+    pre = r.choice([0, 0, 1, 2]) if w != "nc" else 0
+    edits = sorted(r.sample(range(n), r.randrange(1, n + 1))) if (w == "sd" and r.random() < 0.5) else []
+    return {"kind": "sds", "w": w, "pre": pre, "edits": edits, "objs": ds}
 
 
 def gen_img(r):
-    w = r.choice(["df", "gr"])
-    n = r.choice([1, 1, 2, 3])
+    w = r.choice(["df", "gr", "gr"])
+    n = r.choice([1, 2, 2, 3, 4])
     ims = []
-    for _ in range(n):
+    for k in range(n):
         x, y = r.choice([1, 2, 3, 4, 5, 6]), r.choice([1, 2, 3, 4, 5, 6])
-        if r.random() < 0.15:
+        if r.random() < 0.1:
             x = r.choice([130, 257])    # rows longer than one RLE run
         if w == "df":
             nc = r.choice([1, 1, 3])
@@ -118,14 +146,20 @@ def gen_img(r):
             comp = r.choice([0, 1]) if nc == 1 else 0
             pal = nc == 1 and r.random() < 0.5
         else:
-            nc = r.choice([1, 1, 3, 3, 2, 4])
-            nt = r.choice([21, 21, 21, 3, 20, 4])
+            # images the older calls cannot take (no raster-image group) mixed with the ones they can, in any
+            # creation order: group refs and image refs then differ
+            if r.random() < 0.35:
+                nc, nt = r.choice([(2, 21), (4, 21), (1, 20), (3, 4), (1, 3)])
+            else:
+                nc, nt = r.choice([1, 1, 3]), 21
             il = r.choice([0, 1, 2])
             comp = r.choice([0, 0, 1, 2])
             pal = r.random() < 0.4
         ims.append({"x": x, "y": y, "nc": nc, "nt": nt, "il": il, "comp": comp, "data": rbytes(r, x * y * nc),
                     "pal": rbytes(r, 768) if pal else None})
-    return {"kind": "img", "w": w, "ril": r.choice([-1, 0, 1, 2]), "objs": ims}
+    pre = r.choice([0, 0, 1, 2])
+    edits = sorted(r.sample(range(n), r.randrange(1, n + 1))) if (w == "gr" and r.random() < 0.6) else []
+    return {"kind": "img", "w": w, "pre": pre, "edits": edits, "ril": r.choice([-1, 0, 1, 2]), "objs": ims}
 
 
 def gen_rawsds(r):
@@ -139,7 +173,13 @@ def gen_rawsds(r):
         ne = 1
         for d in dims:
             ne *= d
-        ds.append({"dims": dims, "unl": False, "nt": nt, "data": rbytes(r, ne * BASES[nt & 255])})
+        d = {"dims": dims, "unl": False, "nt": nt, "data": rbytes(r, ne * BASES[nt & 255]), "scales": [None] * rank,
+             "strs": None, "range": None}
+        if r.random() < 0.6:      # scales record written by the model: any subset of the dimensions
+            for i in range(rank):
+                if r.random() < 0.5:
+                    d["scales"][i] = rbytes(r, dims[i] * BASES[nt & 255])
+        ds.append(d)
     return {"kind": "rawsds", "form": form, "objs": ds}
 
 
@@ -185,16 +225,41 @@ def gen_ann(r):
     return {"kind": "ann", "w": w, "objs": objs}
 
 
+def meta_tok(d):
+    hs = lambda b: hexs(b) if b else "_"
+    it = ["s%d=%s" % (i, hexs(sc)) for i, sc in enumerate(d.get("scales") or []) if sc]
+    if d.get("strs"):
+        it.append("t=%s;%s;%s" % tuple(hs(x) for x in d["strs"]))
+    if d.get("range"):
+        it.append("r=%s;%s" % (hexs(d["range"][0]), hexs(d["range"][1])))
+    return ",".join(it) or "-"
+
+
+def parse_meta(tok, rank):
+    d = {"scales": [None] * rank, "strs": None, "range": None}
+    ub = lambda h: [] if h == "_" else list(bytes.fromhex(h))
+    if tok != "-":
+        for it in tok.split(","):
+            if it[0] == "s":
+                i, h = it[1:].split("=")
+                d["scales"][int(i)] = ub(h)
+            elif it[0] == "t":
+                d["strs"] = tuple(ub(x) for x in it[2:].split(";"))
+            elif it[0] == "r":
+                d["range"] = tuple(ub(x) for x in it[2:].split(";"))
+    return d
+
+
 def emit(cid, c):
     k = c["kind"]
     if k == "sds":
-        t = ["%s sds %s %d" % (cid, c["w"], len(c["objs"]))]
+        t = ["%s sds %s %d %s %d" % (cid, c["w"], c.get("pre", 0), ",".join(map(str, c.get("edits", []))) or "-", len(c["objs"]))]
         for d in c["objs"]:
             dims = ["%s%d" % ("u" if (d["unl"] and i == 0) else "", x) for i, x in enumerate(d["dims"])]
-            t.append("%d %s %d %s" % (len(d["dims"]), " ".join(dims), d["nt"], hexs(d["data"])))
+            t.append("%d %s %d %s %s" % (len(d["dims"]), " ".join(dims), d["nt"], hexs(d["data"]), meta_tok(d)))
         return " ".join(t)
     if k == "img":
-        t = ["%s img %s %d %d" % (cid, c["w"], c["ril"], len(c["objs"]))]
+        t = ["%s img %s %d %s %d %d" % (cid, c["w"], c.get("pre", 0), ",".join(map(str, c.get("edits", []))) or "-", c["ril"], len(c["objs"]))]
         for m in c["objs"]:
             t.append("%d %d %d %d %d %d %s %s" % (m["x"], m["y"], m["nc"], m["nt"], m["il"], m["comp"], hexs(m["data"]),
                                                    hexs(m["pal"]) if m["pal"] else "-"))
@@ -211,7 +276,7 @@ def emit(cid, c):
     if k == "rawsds":
         t = ["%s rawsds %s %d" % (cid, c["form"], len(c["objs"]))]
         for d in c["objs"]:
-            t.append("%d %s %d %s" % (len(d["dims"]), " ".join(map(str, d["dims"])), d["nt"], hexs(d["data"])))
+            t.append("%d %s %d %s %s" % (len(d["dims"]), " ".join(map(str, d["dims"])), d["nt"], hexs(d["data"]), meta_tok(d)))
         return " ".join(t)
     if k == "rawimg":
         t = ["%s rawimg %s %d %d" % (cid, c["form"], c["ril"], len(c["objs"]))]
@@ -235,6 +300,8 @@ def parse_case(line):
         return t[i[0] - 1]
     if k == "sds":
         w = nx()
+        pre = int(nx())
+        ed = nx()
         n = int(nx())
         objs = []
         for _ in range(n):
@@ -248,10 +315,14 @@ def parse_case(line):
                 dims.append(int(x))
             nt = int(nx())
             h = nx()
-            objs.append({"dims": dims, "unl": unl, "nt": nt, "data": list(bytes.fromhex(h)) if h != "-" else []})
-        return cid, {"kind": "sds", "w": w, "objs": objs}
+            o = {"dims": dims, "unl": unl, "nt": nt, "data": list(bytes.fromhex(h)) if h != "-" else []}
+            o.update(parse_meta(nx(), rank))
+            objs.append(o)
+        return cid, {"kind": "sds", "w": w, "pre": pre, "edits": [int(x) for x in ed.split(",")] if ed != "-" else [], "objs": objs}
     if k == "img":
         w = nx()
+        pre = int(nx())
+        ed = nx()
         ril = int(nx())
         n = int(nx())
         objs = []
@@ -260,7 +331,7 @@ def parse_case(line):
             h, p = nx(), nx()
             objs.append({"x": x, "y": y, "nc": nc, "nt": nt, "il": il, "comp": comp,
                          "data": list(bytes.fromhex(h)) if h != "-" else [], "pal": list(bytes.fromhex(p)) if p != "-" else None})
-        return cid, {"kind": "img", "w": w, "ril": ril, "objs": objs}
+        return cid, {"kind": "img", "w": w, "pre": pre, "edits": [int(x) for x in ed.split(",")] if ed != "-" else [], "ril": ril, "objs": objs}
     if k == "pal":
         n = int(nx())
         return cid, {"kind": "pal", "objs": [list(bytes.fromhex(nx())) for _ in range(n)]}
@@ -283,7 +354,9 @@ def parse_case(line):
             dims = [int(nx()) for _ in range(rank)]
             nt = int(nx())
             h = nx()
-            objs.append({"dims": dims, "unl": False, "nt": nt, "data": list(bytes.fromhex(h)) if h != "-" else []})
+            o = {"dims": dims, "unl": False, "nt": nt, "data": list(bytes.fromhex(h)) if h != "-" else []}
+            o.update(parse_meta(nx(), rank))
+            objs.append(o)
         return cid, {"kind": "rawsds", "form": form, "objs": objs}
     if k == "rawimg":
         form = nx()
@@ -332,7 +405,7 @@ def run_cases(ctx, cases, tag):
         for cid, c in cases:
             fh.write((cid + " " + rawline[cid] if cid in rawline else emit(cid, c)) + "\n")
     rc, R = vc.run_lines(exe, ph, timeout=1500, args=[wd])
-    noise = [l for l in R if not re.match(r"^\S+ (w|rec|end|crash|dfsd|sd|sdn|nc|vg|vgi|dfr8|df24|gr|grr|dfp|dfan|an|legacy) ", l + " ")]
+    noise = [l for l in R if not re.match(r"^\S+ (w|rec|end|crash|dfsd|sd|sdn|nc|vg|vgi|dfr8|df24|gr|grr|dfp|dfan|an|legacy|dfsdmeta|sdmeta) ", l + " ")]
     Rd = by_case([l for l in R if l not in noise])
     Sd = by_case(S)
     # phase 2: the record models read the element dump of every file the library wrote
@@ -351,7 +424,7 @@ def run_cases(ctx, cases, tag):
     return Rd, Sd, Md, noise
 
 
-VIEWS = ("dfsd", "sd", "sdn", "nc", "vg", "vgi", "dfr8", "df24", "gr", "grr", "dfp", "dfan", "an")
+VIEWS = ("dfsd", "sd", "sdn", "nc", "vg", "vgi", "dfr8", "df24", "gr", "grr", "dfp", "dfan", "an", "dfsdmeta", "sdmeta")
 
 
 def observed(lines):
@@ -364,6 +437,11 @@ def compare(c, R, S):
     crash = [l for l in R if l.startswith("crash")]
     if crash:
         return ["library crashed: " + crash[0]], 0
+    if c["kind"] == "sds" and len(set(o["dims"][0] for o in c["objs"] if o["unl"])) > 1:
+        # record variables with different record counts: the netCDF-style calls (and the record-dimension Vdata)
+        # know one record count per file and present every record variable with the largest; outside the claim
+        r = [l for l in r if l.split()[0] not in ("nc", "vg")]
+        s = [l for l in s if l.split()[0] not in ("nc", "vg")]
     wfail = [l for l in R if l.startswith("w ") and re.search(r" -\d", l.split("ref=")[0])]
     # the Vgroup view cannot show the pixels of a compressed image: compare its description only
     rd = {" ".join(l.split()[:2]): l for l in r if l.startswith("vgi ") and l.endswith(" -")}
@@ -482,7 +560,17 @@ def shrinks(c):
         for i in range(len(objs)):
             d = dict(c)
             d["objs"] = objs[:i] + objs[i + 1:]
+            if c.get("edits"):
+                d["edits"] = [e if e < i else e - 1 for e in c["edits"] if e != i]
             yield d
+    if c.get("edits"):
+        d = dict(c)
+        d["edits"] = []
+        yield d
+    if c.get("pre"):
+        d = dict(c)
+        d["pre"] = 0
+        yield d
     if c["kind"] in ("sds", "rawsds"):
         for i, o in enumerate(objs):
             for j, dim in enumerate(o["dims"]):
@@ -493,6 +581,9 @@ def shrinks(c):
                     for x in o2["dims"]:
                         ne *= x
                     o2["data"] = o["data"][:ne * BASES[o["nt"] & 255]]
+                    if o.get("scales") and o["scales"][j]:
+                        o2["scales"] = list(o["scales"])
+                        o2["scales"][j] = o["scales"][j][:BASES[o["nt"] & 255]]
                     d = dict(c)
                     d["objs"] = objs[:i] + [o2] + objs[i + 1:]
                     yield d
@@ -590,7 +681,10 @@ def run(ctx):
         cases.append(("L%d" % i, {"kind": "legacy", "path": p}))
     Rd, Sd, Md, noise = run_cases(ctx, cases, "main")
     stats = {"cases": len(cases), "corpus": ncorpus, "legacy_files": len(leg), "by_kind": {}, "by_writer": {},
-             "values_compared": 0, "number_types": {}, "interlace_pairs": {}, "compressions": {}}
+             "values_compared": 0, "number_types": {}, "interlace_pairs": {}, "compressions": {},
+             "metadata_lines_compared": 0, "datasets_with_scales_on_a_proper_subset": 0, "scale_after_unscaled_dimension": 0,
+             "files_with_differing_record_counts": 0, "later_metadata_sessions": 0, "foreign_objects_first": 0,
+             "gr_files_with_group_less_image_before_group_image": 0, "objects_per_file": {}}
     nviol = 0
     for cid, c in cases:
         R, S = Rd.get(cid, []), Sd.get(cid, [])
@@ -602,7 +696,24 @@ def run(ctx):
             bad, nv = compare_legacy(R)
         else:
             bad, nv = compare(c, R, S)
+        if k in ("sds", "img"):
+            stats["objects_per_file"][str(len(c["objs"]))] = stats["objects_per_file"].get(str(len(c["objs"])), 0) + 1
+            stats["later_metadata_sessions"] += 1 if c.get("edits") else 0
+            stats["foreign_objects_first"] += 1 if c.get("pre") else 0
+        if k == "sds" and len(set(o["dims"][0] for o in c["objs"] if o["unl"])) > 1:
+            stats["files_with_differing_record_counts"] += 1
+        if k == "img" and c["w"] == "gr":
+            rig = [(o["nt"] == 21 and o["nc"] in (1, 3)) for o in c["objs"]]
+            if any((not a) and any(rig[i + 1:]) for i, a in enumerate(rig)):
+                stats["gr_files_with_group_less_image_before_group_image"] += 1
+        stats["metadata_lines_compared"] += sum(1 for l in R if l.startswith(("sdmeta ", "dfsdmeta ")))
         for o in c.get("objs", []):
+            if k in ("sds", "rawsds") and o.get("scales"):
+                sc = [x is not None for x in o["scales"]]
+                if any(sc) and not all(sc):
+                    stats["datasets_with_scales_on_a_proper_subset"] += 1
+                if any((not a) and any(sc[i + 1:]) for i, a in enumerate(sc)):
+                    stats["scale_after_unscaled_dimension"] += 1
             if k == "sds":
                 stats["number_types"][str(o["nt"])] = stats["number_types"].get(str(o["nt"]), 0) + 1
             if k == "img":
@@ -690,6 +801,15 @@ def model_disagreements(c, R, M):
             rd, md = sds_keys(view, R, False), sds_keys("ndgm", M, True)
             if not same(rd, md):
                 bad.append("hdf_read_ndgs model differs from SDgetinfo/SDreaddata on the NDG path: R=%s M=%s" % (str(rd)[:150], str(md)[:150]))
+    if k == "sds" and c["w"] == "dfsd":
+        # the scales record through both readers' models vs SDgetdimscale / DFSDgetdimscale
+        nts = {x[0]: int(x[2 + int(x[1])]) for x in rows("sd", R)}
+        for view, mview, what in (("sdmeta", "scalem", "hdf_read_ndgs scale walk"), ("dfsdmeta", "dscalem", "DFSDIgetndg scales")):
+            rr = sorted((t[3], to_file_order(nts.get(t[1], 0), t[4])) for t in (l.split() for l in R if l.startswith(view + " "))
+                        if t[2] == "scale" and t[4] != "none")
+            mm = sorted((t[2], t[3]) for t in (l.split() for l in M if l.startswith(mview + " ")) if t[3] != "none")
+            if rr != mm:
+                bad.append("%s model differs from the library: R=%s M=%s" % (what, str(rr)[:150], str(mm)[:150]))
     if k in ("img", "legacy"):
         # RIG readers: dimensions, component count, interlace code, and the stored pixels when not compressed
         mr = [x for x in rows("rigm", M)]
